@@ -70,6 +70,8 @@ def gen(cls, idx, rng, tier):
                          rng.randint(0, 600)])
     if cls == "tiny":
         length = rng.randint(0, 4)
+    elif rng.random() < .01:
+        length = rng.choice([65535, 65536, 65537, 70001])   # past 16 bits
     base = 0x60200000 + 4 * rng.randrange(1000) + rng.randrange(4)
     via_alloc = rng.random() < .4
     if via_alloc:
